@@ -86,7 +86,8 @@ Lemma deser_loop_S f tb tr st :
                  | Some (so, st1) =>
                    match take_val st1 with
                    | Some (sl, st2) =>
-                     deser_loop f tr (set_tape_off st2 (tape_set (tape_set (d_tape st2) off (N.lor tagDst so)) (off + 1) sl) (off + 2))
+                     if JSONVALUEMASK <? so then Err
+                     else deser_loop f tr (set_tape_off st2 (tape_set (tape_set (d_tape st2) off (N.lor tagDst so)) (off + 1) sl) (off + 2))
                    | None => Err
                    end
                  | None => Err
@@ -201,6 +202,7 @@ Proof.
     destruct (take_val st2) as [[sl st3]|] eqn:Et2; [|exact I].
     destruct (take_val_tape _ _ _ Et1) as (A1 & A2 & A3).
     destruct (take_val_tape _ _ _ Et2) as (B1 & B2 & B3).
+    destruct (JSONVALUEMASK <? so) eqn:?; [exact I|].
     safe_step IH Hf Hl1 Ho1. }
   destruct ((t =? TagFloat) || (t =? TagInteger) || (t =? TagUint)) eqn:E3.
   { destruct (d_vrem st1 <? 8) eqn:?; [exact I|].
